@@ -220,3 +220,23 @@ Definition dist_case_ok (c : dist_case) : bool :=
 
 Definition dist_mismatches (cs : list dist_case) : list N :=
   map dc_id (filter (fun c => negb (dist_case_ok c)) cs).
+
+(* ---- C13 / C15 / C17: lifecycle correspondence -------------------------- *)
+From Verif Require Import Life.
+
+Record life_case := mkLC {
+  lc_id : N; lc_fired : bool; lc_fault : fault; lc_selects : nat; lc_series : nat; lc_steps : nat;
+  lc_ok : bool;                          (* the implementation returned a value *)
+  lc_queriers : list (nat * nat) }.      (* per querier: opens, closes at the moment Exec returned *)
+
+Definition life_model_status (c : life_case) : status :=
+  let sels := map (fun i => (i, lc_series c)) (seq 0 (S (lc_selects c))) in
+  status_of (exec_prog true sels (lc_steps c))
+            (fun j => if lc_fired c && Nat.eqb j 1 then lc_fault c else FNone).
+
+Definition life_case_ok (c : life_case) : bool :=
+  Bool.eqb (lc_ok c) (match life_model_status c with SOk => true | _ => false end)
+  && forallb (fun oc => Nat.eqb (fst oc) 1 && Nat.eqb (snd oc) 1) (lc_queriers c).
+
+Definition life_mismatches (cs : list life_case) : list N :=
+  map lc_id (filter (fun c => negb (life_case_ok c)) cs).
